@@ -1,7 +1,7 @@
 #!/usr/bin/env python3
 """seedtable.py: markdown table of the seeded changes and what the checks reported for each (from seeded/sweep.json, written by seedsweep.py)."""
 import json, os, re, sys
-SD = '/verif/seeded'
+SD = os.path.join(os.path.dirname(os.path.dirname(os.path.abspath(__file__))), 'seeded')
 sw = json.load(open(os.path.join(SD, 'sweep.json')))
 rows = []
 for name in sorted(d for d in os.listdir(SD) if os.path.exists(os.path.join(SD, d, 'patch.diff'))):
